@@ -1142,9 +1142,103 @@ def plan_C13(tier, rng):
     return cs, [model], {"input_families": cs.tags, "configurations": ["rf"]}
 
 
+# ================================================================================================
+# C15
+
+def plan_C15(tier, rng):
+    cs = Cases()
+    quick = tier == "quick"
+    cfgs_std = ["default", "rf"]
+    L50 = "n" + "a" * 49
+    I50 = "i" + "z" * 49
+    optsets = [("NaN", "inf", "infinity"), ("n", "i", "in"), ("nan", "inf", "inf"), ("N", "I", "Infinity"), ("NAN", "INF", "INFINITY"),
+               ("nans", "i", "infinity"), (L50, "inf", I50), (None, "inf", "infinity"), ("NaN", None, None), (None, None, None),
+               ("NaN", "in", "inf"), ("nan", "Inf", "Inft")]
+    fmts = [(0, cfgs_std), (fmt_id("syn_no_special"), ["rf"]), (fmt_id("syn_case_sensitive_special"), ["rf"]),
+            (fmt_id("sep_special"), ["rf"]), (fmt_id("sep_all_flags"), ["rf"]), (radix_fmt(19), ["rf"]), (radix_fmt(24), ["rf"]),
+            (radix_fmt(36), ["rf"]), (radix_fmt(16), ["rf"])]
+    i = 0
+
+    def variants(sp):
+        out = set()
+        for w in sp:
+            if w is None:
+                continue
+            b = w.encode()
+            out.add(b)
+            for k in range(1, len(b)):
+                out.add(b[:k])
+            for ext in (b"s", b"y", b"0", b" ", b"_", b"\x00", b"e5", b"."):
+                out.add(b + ext)
+            for k in range(min(len(b), 8)):
+                out.add(b[:k] + bytes([b[k] ^ 0x20]) + b[k + 1:])
+                out.add(b[:k] + b"_" + b[k:])
+            out.add(b.upper())
+            out.add(b.lower())
+            out.add(b.swapcase())
+        out |= {b"@", b"`", b"[", b"{", b"nAN", b"iNF", b"INFINITY", b"infinit", b"infinityy", b"NaN(", b"1nan", b"nan1", b"i", b"n", b""}
+        res = []
+        for b in sorted(out):
+            res.append(b)
+            res.append(b"-" + b)
+            if len(b) < 6:
+                res.append(b"+" + b)
+        return res
+
+    for (fid, cfgs) in fmts:
+        F = fmt_tags()[fid]
+        r = 10
+        for (n, a) in F["calls"]:
+            if n in ("from_radix",):
+                r = a
+        for (nan, inf, infinity) in (optsets if not quick else optsets[:9]):
+            o = pf(exp=exp_char(r), nan=B(nan) if nan else [], inf=B(inf) if inf else [], infinity=B(infinity) if infinity else [])
+            vs = variants((nan, inf, infinity))
+            if quick:
+                vs = rng.sample(vs, min(len(vs), 70))
+            ep = cs.new_ep()
+            for b in vs:
+                i += 1
+                if i % 40 == 0:
+                    ep = cs.new_ep()
+                c = [cfgs[i % len(cfgs)]]
+                ty = "f32" if i % 3 == 0 else "f64"
+                cs.parse(ep, ty, fid, list(b), c, wo=True, opts=o, tag="special-parse")
+                if i % 2 == 0:
+                    cs.parse(ep, ty, fid, list(b), c, wo=True, opts=o, partial=True, want_prefix=True)
+            # writing specials and signed zeros
+            for F_ in (F64, F32):
+                nb = (1 << F_["ebits"]) - 1
+                sign = 1 << (F_["bits"] - 1)
+                for bits in (nb << F_["mbits"], sign | (nb << F_["mbits"]), (nb << F_["mbits"]) | 1, sign | (nb << F_["mbits"]) | 5, 0, sign):
+                    if "no_special" in F["name"]:
+                        continue
+                    wo_ = wf(exp=exp_char(r), nan=B(nan) if nan else [], inf=B(inf) if inf else [])
+                    cs.write(ep, F_["name"], fid, "%x" % bits, [cfgs[0]], wo=True, opts=wo_, tag="special-write", want_back=True)
+    # default API
+    ep = cs.new_ep()
+    for b in variants(("NaN", "inf", "infinity")):
+        i += 1
+        if i % 40 == 0:
+            ep = cs.new_ep()
+        cs.parse(ep, "f64", 0, list(b), [cfgs_std[i % 2]], std=True, tag="special-default-api")
+        cs.parse(ep, "f32", 0, list(b), [cfgs_std[i % 2]], partial=True)
+    for s in ("0", "-0", "+0", "-0.0", "0e5", "-0e-5", "-0e999999", "-1e-400", "1e-400", "-1e400", "1e400", "-.0", "+.0e1"):
+        ep = cs.new_ep()
+        for ty in ("f64", "f32"):
+            cs.parse(ep, ty, 0, s, cfgs_std, std=True, tag="signed-zero")
+
+    def phase2(events, cs2):
+        add_back(events, cs2)
+        for e in events:
+            if e.get("want_prefix") and e["op"] == "parse" and e["res"].get("k") == "ok" and 0 < e["res"]["n"] < e["len"]:
+                cs2.parse(e["ep"], e["ty"], e["fmt"], e["in"][:e["res"]["n"]], [e["_cfgname"]], wo=e["wo"], opts=e["opts"], tag="prefix")
+    return cs, [], {"input_families": cs.tags, "configurations": ["default", "rf"], "phase2": phase2}
+
+
 PLANS = {"C01": plan_C01, "C02": plan_C02, "C03": plan_C03, "C04": plan_C04, "C05": plan_C05,
          "C06": plan_C06, "C07": plan_C07, "C08": plan_C08, "C09": plan_C09,
-         "C10": plan_C10, "C11": plan_C11, "C12": plan_C12, "C13": plan_C13, "C14": plan_C14, "C16": plan_C16, "C17": plan_C17, "C19": plan_C19}
+         "C10": plan_C10, "C11": plan_C11, "C12": plan_C12, "C13": plan_C13, "C14": plan_C14, "C15": plan_C15, "C16": plan_C16, "C17": plan_C17, "C19": plan_C19}
 
 
 ASSUME = {
